@@ -1210,7 +1210,10 @@ func (c *Conn) handleShortHeaderPacket(
 		if !isCoalesced && len(p.data) >= protocol.MinReceivedStatelessResetSize && p.data[0]&0b11000000 == 0b01000000 {
 			token := protocol.StatelessResetToken(p.data[len(p.data)-16:])
 			if c.connIDManager.IsActiveStatelessResetToken(token) {
-				return false, &StatelessResetError{}
+				// A stateless reset ends the connection at once, and nothing must be sent
+				// in response (RFC 9000, section 10.3.1): destroy, don't close.
+				c.destroyImpl(&StatelessResetError{})
+				return false, nil
 			}
 		}
 		wasQueued, err = c.handleUnpackError(err, p, qlog.PacketType1RTT, datagramID)
